@@ -1219,6 +1219,25 @@ class StateEngine(object):
                     parent_terminated = parent_branch_results.get("terminated")
                     parent_results = parent_branch_results.get("results")
                     parent_index = parent_info["Index"]
+                    """
+                    With more than two levels of nesting it may be a state
+                    further out that has been terminated, which is not yet
+                    recorded in the states in between: do so now, so that
+                    this branch and its peers are dropped as well.
+                    """
+                    if not parent_terminated:
+                        for i in range(len(branch_info_stack) - 2):
+                            outer_info = branch_info_stack[i]
+                            outer_results = all_branch_results.get(outer_info["ID"])
+                            if outer_results and outer_results.get("terminated"):
+                                for info in branch_info_stack[i + 1:-1]:
+                                    between = all_branch_results.get(info["ID"])
+                                    if between and not between.get("terminated"):
+                                        between["terminated"] = info.get(
+                                            "Range", "0:" + str(info.get("Length"))
+                                        )
+                                parent_terminated = parent_branch_results.get("terminated")
+                                break
 
             # Get the item at the top of the Branch metadata stack
             branch_info = branch_info_stack[-1]
